@@ -325,6 +325,37 @@ def const_int(op):
     return None
 
 
+def const_or_array_len(body, op, depth=4):
+    """Integer value of an operand that is a constant, or `<array>.len()` of a local of type `[T; N]` (-> N)."""
+    import re
+    v = const_int(op)
+    if v is not None or depth < 0:
+        return v
+    pl = op_place(op)
+    if pl is None or pl["p"]:
+        return None
+    ds = body.defs().get(pl["l"], [])
+    if len(ds) != 1:
+        return None
+    bi, si, kind, payload = ds[0]
+    if kind == "assign" and payload["rv"]["k"] in ("use", "cast"):
+        return const_or_array_len(body, payload["rv"]["a"][0], depth - 1)
+    if kind == "call" and (payload.decl_s or "").endswith("::len") and payload.args:
+        ap = op_place(payload.args[0])
+        if ap is not None:
+            base = _base_local(body, ap)
+            m = re.search(r"\[[^;\]]+;\s*(\d+)\]", body.local_ty(base))
+            if m:
+                return int(m.group(1))
+            # unsize coercion `&[u8; N] -> &[u8]` in between
+            for d in body.defs().get(base, []):
+                if d[2] == "assign" and d[3]["rv"]["k"] == "cast" and "Unsize" in (d[3]["rv"].get("ck") or ""):
+                    m = re.search(r"\[[^;\]]+;\s*(\d+)\]", d[3]["rv"].get("from") or "")
+                    if m:
+                        return int(m.group(1))
+    return None
+
+
 def local_of(op):
     pl = op_place(op)
     if pl is not None and not pl["p"]:
